@@ -122,3 +122,61 @@ func selftest(args []string) int {
 	}
 	return 0
 }
+
+// replayCorpus runs the mutants of one property against the current tree and
+// returns counts for the evidence file (thorough tier). It never influences the
+// verdict: a mutant whose anchor text is gone from a changed tree is skipped.
+func replayCorpus(prop, repo, verif string, jobs int) map[string]any {
+	files, _ := filepath.Glob(filepath.Join(verif, "mutants", prop, "*.json"))
+	sort.Strings(files)
+	self, err := os.Executable()
+	if err != nil {
+		return map[string]any{"error": err.Error()}
+	}
+	var mu sync.Mutex
+	killed, silentOK, skipped := 0, 0, 0
+	var failed []string
+	sem := make(chan struct{}, jobs)
+	var wg sync.WaitGroup
+	for _, f := range files {
+		b, err := os.ReadFile(f)
+		if err != nil {
+			continue
+		}
+		var m mutantSpec
+		if json.Unmarshal(b, &m) != nil {
+			continue
+		}
+		wg.Add(1)
+		go func(f string, m mutantSpec) {
+			defer wg.Done()
+			sem <- struct{}{}
+			defer func() { <-sem }()
+			cmd := exec.Command(self, "check", "--property", m.Property, "--mutant", f, "--no-evidence", "--repo", repo, "--verif", verif)
+			out, _ := cmd.CombinedOutput()
+			code := cmd.ProcessState.ExitCode()
+			mu.Lock()
+			defer mu.Unlock()
+			switch {
+			case code == 3 || code == 2:
+				skipped++
+			case m.Expect == "silent":
+				if code == 0 {
+					silentOK++
+				} else {
+					failed = append(failed, filepath.Base(f))
+				}
+			default:
+				if code == 1 && strings.Contains(string(out), "rule="+m.Rule) {
+					killed++
+				} else {
+					failed = append(failed, filepath.Base(f))
+				}
+			}
+		}(f, m)
+	}
+	wg.Wait()
+	sort.Strings(failed)
+	return map[string]any{"mutants": len(files), "killed": killed, "behaviour_preserving_silent": silentOK, "skipped_anchor_text_absent": skipped, "not_as_expected": failed,
+		"note": "checker validation only: single-site edits of /repo applied in memory through a go/packages overlay, one process each; does not influence the verdict"}
+}
